@@ -139,7 +139,7 @@ def run(rep: Report, tier: str) -> None:
         paths = [["quantise", "fwd", "bwd"][(E + M) % 3]] if quick else ["quantise", "fwd", "bwd"]
         for path in paths:
           for (s_arg, s) in cases:
-            pats = quant.inputs_for_format(E, M, rng, n_vals, 0 if quick else 1)
+            pats = quant.inputs_for_format(E, M, rng, n_vals, 1)   # one generic mantissa per exponent also in quick: fractions other than 0, 1/2, 1
             pats = pats[pats < quant.INF]  # finite range
             maxn = max(8, budget >> s)
             if len(pats) > maxn:
